@@ -280,6 +280,21 @@ def run(ctx, rep):
                       "%s.%s is computed from the account details on every read, nothing is remembered" % (cls.name, pname),
                       pf, None, "effectful: %s; instance state read: %s" % (eff_f, sorted(attrs)))
     rep.floor("R2", "client minimum-stake properties", n_lim, 9)
+    # ... and each limit is read from its OWN column of the currency table, with its own fallback constant (the
+    # columns coincide for most currencies: a swapped key only shows for the few where they differ, e.g. EUR)
+    bc = prog.cls("BetfairClient")
+    names = {"min_bet_size": "MIN_BET_SIZE", "min_bet_payout": "MIN_BET_PAYOUT", "min_bsp_liability": "MIN_BSP_LIABILITY"}
+    for pname, const in names.items():
+        pf = bc.methods.get(pname)
+        if pf is None:
+            continue
+        keys = [n.slice.value for n in walk_nodes(pf.node.body, ast.Subscript)
+                if isinstance(n.slice, ast.Constant) and isinstance(n.slice.value, str) and n.slice.value in names]
+        consts = {n.id for r_ in walk_nodes(pf.node.body, ast.Return) if r_.value is not None
+                  for n in ast.walk(r_.value) if isinstance(n, ast.Name) and n.id in names.values()}
+        rep.check(bool(keys) and set(keys) == {pname} and consts <= {const}, "R2",
+                  "BetfairClient.%s reads the '%s' column of the currency parameters and falls back to %s" % (pname, pname, const),
+                  pf, None, "columns read: %s; fallback constants: %s" % (sorted(set(keys)), sorted(consts)))
     sz = prog.own_method("OrderValidation", "_validate_size")
     d = [utext(s.value) for s in walk_nodes(sz.node.body, ast.Assign) if utext(s.targets[0]) == "size"]
     rep.check(sorted(d) == ["order.order_type.size", "order.order_type.size or order.order_type.bet_target_size"], "R2",
